@@ -12,20 +12,27 @@ TEXT = {
  "C08": ("every strict RFC 8259 document inside the bound (assumption executed symbolically) is accepted whole and at every cut; verdicts from z3", "4 C08"),
  "C09": ("acceptance implies membership in the relaxed grammar (independent three-valued recogniser), whole and truncated mode, all byte strings up to the bound", "4 C09"),
  "C10": ("key-path stack balance as an inductive step from an arbitrary stack height, on symbolic inputs over the structural alphabet; end-to-end sub-type verdicts on assembled objects", "4 C10"),
- "C11": ("charset.FromPlain against an independent RFC 3629 DFA, BOM table and C1 rule for all byte strings without binary-data bytes up to the bound", "4 C11"),
- "C16": ("recursion guard as an inductive step from arbitrary 62-bit level/cap; measured interpreter call depth bounded by the cap for all inputs in the bound; pool invariant", "4 C16"),
- "C03": ("the real match/clone/cloneHierarchy/Extend on the real 179-node tree with one solver variable per detector verdict; equality with an independent first-match walk for every verdict vector (hence inputs of any length)", "4 C03"),
- "C04": ("purity as four obligations from adversarial pre-states: recycled JSON parser state with symbolic fields, dirtied pooled CSV reader, limit slicing, write watch on the caller's buffer", "4 C04"),
- "C05": ("real DetectReader/DetectFile with io.ReadFull/ReadAll executed from source over a nondeterministic conforming reader (all chunkings, EOF with data, error at every offset); header handed to the walk compared byte-wise by the solver with Detect's", "4 C05"),
+ "C11": ("charset.FromPlain against an independent RFC 3629 DFA, BOM table and C1 rule for all byte strings without binary-data bytes up to the bound, and for the second of two consecutive arbitrary texts", "4 C11, 11.2"),
+ "C16": ("recursion guard as an inductive step from arbitrary 62-bit level/cap; measured interpreter call depth bounded by the cap for all inputs in the bound and for chains of concrete openers through the real Parse with a scaled-down cap; pool invariant", "4 C16, 11.2"),
+ "C03": ("the real match/clone/cloneHierarchy/Extend on the real 179-node tree with one solver variable per detector verdict; equality with an independent first-match walk for every verdict vector (hence inputs of any length), also for the second of two detections with independent verdict vectors", "4 C03, 11.2"),
+ "C04": ("purity as obligations from adversarial pre-states and histories: recycled JSON parser state with symbolic fields, real earlier parses, dirtied pooled CSV reader, limit slicing, write watch on the caller's buffer, sequences of reader detections with changing limits, one buffer re-used for different documents", "4 C04, 11.2"),
+ "C05": ("real DetectReader/DetectFile with io.ReadFull/ReadAll executed from source over a nondeterministic conforming reader (all chunkings, EOF with data, error at every offset; inputs around 3072 bytes with limits below/at/above it; os.Stat modelled); header handed to the walk compared byte-wise by the solver with Detect's", "4 C05, 11.2"),
  "C13": ("CSV/TSV through the real encoding/csv+bufio and NDJSON through the real scanner: survival of every cut after line 2 for symbolic tables/streams, and the converse implication on arbitrary bytes over a stated alphabet", "4 C13"),
  "C14": ("real Extend/Lookup/match on the real tree with symbolic verdicts: position among siblings, lookup of names/aliases, unchanged results when every extension rejects, immutability of earlier results", "4 C14"),
- "C17": ("monotonicity in the limit as one inductive step over the header length for each binary root format executed from its real code", "4 C17"),
+ "C17": ("monotonicity in the limit as one inductive step over the header length for each binary root format executed from its real code (a concrete member of each hand-over path class is probed first; tar with symbolic and with pinned size fields at record boundaries)", "4 C17, 11.2"),
  "C18": ("real Tar/tarParseOctal/tarChksum on a fully symbolic 512-byte block; obligations with 512-term sums decided over Int after interval analysis shows no wrap", "4 C18"),
  "C02": ("structure of results for every verdict vector on the real tree, plus the format->parse round trip of hostile charset labels through the real FromHTML/FromXML, mime.FormatMediaType and mime.ParseMediaType executed symbolically", "4 C02"),
- "C06": ("schedule-independent lock discipline (lockset + ownership + atomicity) decided on the symbolic paths of every ordered pair of public operations; interleavings are not enumerated; violations replayed under go test -race", "4 C06"),
+ "C06": ("data-race freedom as a schedule-independent lock discipline (lockset + ownership + atomicity) on the paths of every ordered pair of public operations, replayed under go test -race; sequential-outcome postconditions of seven concurrent scenarios with the interleaving at synchronisation operations as a forked decision variable of the executor (every schedule with at most two preemptions)", "4 C06, 11.1, 11.2"),
  "C12": ("charset.FromHTML through the real x/net/html tokenizer and FromXML through the real encoding/xml on declaration templates with symbolic labels, whitespace and case variants", "4 C12"),
  "C15": ("real Is/EqualsAny/Lookup with mime.ParseMediaType executed symbolically over all 258 registered names in decorated and substituted spellings", "4 C15"),
  "C19": ("real zipContains and the zip-family detectors on archives laid out by a harness zip writer with symbolic name/body bytes; oracle = the entry list written", "4 C19"),
+}
+
+TECH = {
+ "C06": "solver-based bounded symbolic execution of go/ssa: lockset discipline over logged accesses plus bounded-preemption schedule exploration (schedules are forked decisions of the executor), counterexamples replayed natively under the race detector / in goroutines",
+ "C18": "solver-based bounded symbolic execution of go/ssa; 512-term checksum obligations decided by z3 over Int after interval analysis (bit-vector back ends do not terminate), counterexamples replayed natively",
+ "C03": "solver-based bounded symbolic execution of go/ssa with one solver variable per detector verdict (tree-walk abstraction), counterexamples replayed natively",
+ "C14": "solver-based bounded symbolic execution of go/ssa with one solver variable per detector verdict (tree-walk abstraction), counterexamples replayed natively",
 }
 
 NOTE = ("trusted: go/packages+go/ssa front end, the symgo executor's instruction semantics and intrinsics (engine/symgo), z3 4.8.12, "
@@ -48,7 +55,7 @@ def main():
             "engine": "symgo",
             "level_claimed": {"category": "other", "text": "bounded symbolic verification of the real code (SSA -> SMT): " + text, "design_ref": "DESIGN.md section " + ref},
             "level_note": NOTE,
-            "technique": "solver-based bounded symbolic execution of go/ssa (z3 + exact finite-domain procedure), counterexamples replayed natively",
+            "technique": TECH.get(pid, "solver-based bounded symbolic execution of go/ssa (z3 + exact finite-domain procedure), counterexamples replayed natively"),
         })
     claimed = {c["property_id"] for c in checks}
     na = [{"property_id": p, "reason": na_reasons.get(p, "check not yet registered in this build round (harness under construction)")} for p in props if p not in claimed]
@@ -60,7 +67,7 @@ def main():
                   "baseline_off_cmd": "cd /repo && go test -vet=off -count=1 -timeout 25m ./...",
                   "source_commits": [], "add_only": True},
         "engines": [{"name": "symgo", "path": "/verif/engine", "serves_properties": sorted(claimed),
-                     "kind_free_text": "bounded symbolic executor over go/ssa (fork of x/tools go/ssa/interp with symbolic scalars), finite-domain + z3 solver layer, native replay of counterexamples"}],
+                     "kind_free_text": "bounded symbolic executor over go/ssa (fork of x/tools go/ssa/interp with symbolic scalars), finite-domain + z3 solver layer, multi-process path exploration, schedule exploration for two logical threads, native replay of counterexamples"}],
         "checks": checks,
         "not_applicable": na,
         "notes": "fix: commits in /repo repair genuine defects found by the checks (see known_findings.json and DESIGN.md section 6).",
